@@ -42,12 +42,12 @@ func c02Parse(method, target, host string, useTLS bool) *c02Req {
 
 func (q *c02Req) gallina() string {
 	return fmt.Sprintf("(RQ %s %s %s %s %s)", emit.Bool(q.tls), emit.Str(q.r.Method), emit.Str(q.r.Host),
-		emit.Str(q.r.URL.Path), emit.Str(q.r.URL.RawQuery))
+		emit.Str(q.r.URL.EscapedPath()), emit.Str(q.r.URL.RawQuery))
 }
 
 func (q *c02Req) readable() map[string]any {
 	return map[string]any{"method": q.rawMethod, "target": q.rawTarget, "host_header": q.rawHost, "tls": q.tls,
-		"Host": q.r.Host, "Path": q.r.URL.Path, "RawQuery": q.r.URL.RawQuery}
+		"Host": q.r.Host, "Path": q.r.URL.EscapedPath(), "RawQuery": q.r.URL.RawQuery}
 }
 
 func (q *c02Req) id() string {
